@@ -124,6 +124,13 @@ impl Runner for SubprocessRunner {
                 let kind = err.kind();
                 let (stdout, stderr) = err.capture;
 
+                // a test that timed out is aborted: the shell must not go on
+                // executing it (and persisting state) after Scrut gave up on it
+                if kind == ErrorKind::TimedOut {
+                    let _ = process.kill();
+                    let _ = process.wait();
+                }
+
                 // windows execution returns [`ErrorKind::BrokenPipe`] in case
                 // anything explicitly runs `exit <code>`
                 let exit = if cfg!(windows) {
